@@ -641,6 +641,7 @@ func (ipv6cp *IPV6CPStateMachine) stopTimer() {
 }
 
 func (ipv6cp *IPV6CPStateMachine) timeout() {
+	verifGate("ipv6cp.timeout", ipv6cp)
 	ipv6cp.mu.Lock()
 	defer ipv6cp.mu.Unlock()
 
